@@ -35,7 +35,9 @@ type decCase struct {
 	Coord int  // which coordinate is corrupted
 	Bit   int  // which bit is flipped / prefix value
 	Len   int  // how many bytes are cut off / appended
-	Reuse bool // decode into an element that already holds a value
+	Reuse int  // history of the element decoded into, see recvNames / gtRecvNames
+	Flav  int  // slice flavour of the input, see flavourNames
+	Scrib bool // overwrite the input slice after the call returned
 	Seed  uint64
 }
 
@@ -89,7 +91,13 @@ func genDec(g int) func(t *rapid.T) decCase {
 		c.Coord = rapid.IntRange(0, 11).Draw(t, "coord")
 		c.Bit = rapid.IntRange(0, 8*L-1).Draw(t, "bit")
 		c.Len = rapid.IntRange(1, 40).Draw(t, "len")
-		c.Reuse = rapid.Bool().Draw(t, "reuse")
+		if g == 12 {
+			c.Reuse = rapid.IntRange(0, len(gtRecvNames)-1).Draw(t, "reuse")
+		} else {
+			c.Reuse = rapid.IntRange(0, nRecv-1).Draw(t, "reuse")
+		}
+		c.Flav = rapid.IntRange(0, nFlavours-1).Draw(t, "flavour")
+		c.Scrib = rapid.Bool().Draw(t, "scribble")
 		c.Seed = rapid.Uint64().Draw(t, "seed")
 		switch c.Src {
 		case 0:
@@ -411,8 +419,58 @@ func decide(c decCase, enc []byte) verdict {
 	}
 }
 
+// GT receiver histories (GT elements have no state besides their 12
+// coordinates, but the decoder writes them one by one and may fail half-way).
+var gtRecvNames = []string{"fresh", "holds-element", "holds-one", "after-failed-decode(short)", "after-failed-decode(range)",
+	"after-decoding-zero", "holds-element-then-failed-decode"}
+
+func gtUsedReceiver(kind int, seed uint64) (*vh.GT, error) {
+	g, _ := gtBase()
+	d := new(vh.GT)
+	fail := func(bad []byte, why string) error {
+		a := mkArg(bad, int(seed%2)*4)
+		if _, err := d.Unmarshal(a.b); err == nil {
+			return fmt.Errorf("GT.Unmarshal accepted %x, which must be rejected: %s", bad, why)
+		}
+		if err := a.intact("GT.Unmarshal"); err != nil {
+			return err
+		}
+		a.scribble()
+		return nil
+	}
+	lastP := func() []byte {
+		b := fp12Wire(gRef)
+		copy(b[352:], be32(bnP))
+		return b
+	}
+	switch kind {
+	case 1:
+		d = copyGT(g)
+	case 2:
+		d.SetOne()
+	case 3:
+		return d, fail(fp12Wire(gRef)[:383], "too short")
+	case 4:
+		return d, fail(lastP(), "last coordinate = p")
+	case 5:
+		a := mkArg(make([]byte, 384), int(seed%2)*4)
+		if _, err := d.Unmarshal(a.b); err != nil {
+			return d, fmt.Errorf("GT.Unmarshal rejected the all-zero string: %v", err)
+		}
+		a.scribble()
+	case 6:
+		d = copyGT(g)
+		return d, fail(lastP(), "last coordinate = p")
+	}
+	return d, nil
+}
+
 func checkDecode(c decCase, r *h.Rec) error {
-	if (c.G != 1 && c.G != 2 && c.G != 12) || (c.G == 12 && c.Comp) || c.Mut < 0 || c.Mut >= len(mutNames) || c.Coord < 0 || c.Bit < 0 || c.Len < 0 || c.Src < 0 || c.Src > 2 {
+	if (c.G != 1 && c.G != 2 && c.G != 12) || (c.G == 12 && c.Comp) || c.Mut < 0 || c.Mut >= len(mutNames) || c.Coord < 0 || c.Bit < 0 || c.Len < 0 || c.Src < 0 || c.Src > 2 ||
+		c.Reuse < 0 || c.Flav < 0 || c.Flav >= nFlavours {
+		return nil
+	}
+	if (c.G == 12 && c.Reuse >= len(gtRecvNames)) || (c.G != 12 && c.Reuse >= nRecv) {
 		return nil
 	}
 	L, ncoord, _ := encLen(c.G, c.Comp)
@@ -435,8 +493,18 @@ func checkDecode(c decCase, r *h.Rec) error {
 	}
 	enc := mutate(c, r, base)
 	v := decide(c, enc)
-	offered := append([]byte{}, enc...)
-	desc := fmt.Sprintf("%s(%x) [%s of %s, reuse=%v]", fn, enc, mutNames[c.Mut], note, c.Reuse)
+	rname := ""
+	if c.G == 12 {
+		rname = gtRecvNames[c.Reuse]
+	} else {
+		rname = recvNames[c.Reuse]
+	}
+	r.Label("receiver-" + rname)
+	r.Label("input-slice-" + flavourNames[c.Flav])
+	if c.Scrib {
+		r.Label("input-slice-scribbled")
+	}
+	desc := fmt.Sprintf("%s(%x) [%s of %s, receiver %s, input slice %s, scribbled=%v]", fn, enc, mutNames[c.Mut], note, rname, flavourNames[c.Flav], c.Scrib)
 
 	// valid outputs of the library's own encoders are what the model says they are
 	if c.Src == 0 && c.Mut == mValid {
@@ -450,49 +518,52 @@ func checkDecode(c decCase, r *h.Rec) error {
 	var d1 *vh.G1
 	var d2 *vh.G2
 	var dt *vh.GT
+	arg := mkArg(enc, c.Flav)
 	switch c.G {
 	case 1:
-		d1 = new(vh.G1)
-		if c.Reuse {
-			if d1, err = libG1Base(be32(big.NewInt(int64(3 + c.Len)))); err != nil {
-				return err
-			}
+		if d1, err = grp1.usedReceiver(c.Reuse, c.Seed); err != nil {
+			return err
 		}
 		if c.Comp {
-			rest, derr = d1.UnmarshalCompressed(enc)
+			rest, derr = d1.UnmarshalCompressed(arg.b)
 		} else {
-			rest, derr = d1.Unmarshal(enc)
+			rest, derr = d1.Unmarshal(arg.b)
 		}
 	case 2:
-		d2 = new(vh.G2)
-		if c.Reuse {
-			if d2, err = libG2Base(be32(big.NewInt(int64(3 + c.Len)))); err != nil {
-				return err
-			}
+		if d2, err = grp2.usedReceiver(c.Reuse, c.Seed); err != nil {
+			return err
 		}
 		if c.Comp {
-			rest, derr = d2.UnmarshalCompressed(enc)
+			rest, derr = d2.UnmarshalCompressed(arg.b)
 		} else {
-			rest, derr = d2.Unmarshal(enc)
+			rest, derr = d2.Unmarshal(arg.b)
 		}
 	default:
-		dt = new(vh.GT)
-		if c.Reuse {
-			g, _ := gtBase()
-			dt = copyGT(g)
+		if dt, err = gtUsedReceiver(c.Reuse, c.Seed); err != nil {
+			return err
 		}
-		rest, derr = dt.Unmarshal(enc)
+		rest, derr = dt.Unmarshal(arg.b)
 	}
-	if !bytes.Equal(enc, offered) {
-		return fmt.Errorf("%s modified its input", desc)
+	if err := arg.intact(desc); err != nil {
+		return err
 	}
+	// the rest is documented to be the unread tail of the input (it aliases
+	// it), so it is compared before the input is overwritten
+	restOK := derr == nil && len(enc) >= L && bytes.Equal(rest, enc[L:]) && len(rest) == len(enc)-L
+	restCopy := append([]byte{}, rest...)
+	if c.Scrib {
+		arg.scribble()
+	}
+	// whatever the outcome, the same element must afterwards decode like a fresh one
+	follow := func() error { return followUp(c, desc, d1, d2, dt) }
+
 	if !v.accept {
 		r.NT()
 		r.Label("rejected: " + v.why)
 		if derr == nil {
 			return fmt.Errorf("%s was accepted, but must be rejected: %s", desc, v.why)
 		}
-		return nil
+		return follow()
 	}
 	if v.compInf {
 		// exactly (02|03) || 0^32 for G1 and (02|03) || 0^64 for G2 (plus any
@@ -516,32 +587,33 @@ func checkDecode(c decCase, r *h.Rec) error {
 		}
 		if derr != nil {
 			r.Label("compressed-x=0-rejected")
-			return nil
+			return follow()
 		}
 	}
 	r.Label("accepted")
 	if v.inf {
 		r.Label("accepted-infinity")
 	}
-	r.NTIf(v.inf || c.Src == 1 || len(enc) > L)
+	r.NTIf(v.inf || c.Src == 1 || len(enc) > L || c.Reuse >= 3 || c.Scrib)
 	if derr != nil {
 		return fmt.Errorf("%s was rejected (%v), but is a canonical encoding of an element on the curve", desc, derr)
 	}
-	if !bytes.Equal(rest, enc[L:]) || len(rest) != len(enc)-L {
-		return fmt.Errorf("%s returned rest %x, want the unread tail %x", desc, rest, enc[L:])
+	if !restOK {
+		return fmt.Errorf("%s returned rest %x, want the unread tail %x", desc, restCopy, enc[L:])
 	}
 	canon := enc[:L]
+	var hs holder
 	switch c.G {
 	case 1:
 		full := g1Bytes(v.p1)
-		if err := eqBytes(desc+": Marshal of the decoded point", copyG1(d1).Marshal(), full); err != nil {
+		if err := hs.twice(desc+": Marshal of the decoded point", d1.Marshal, full); err != nil {
 			return err
 		}
-		if err := eqBytes(desc+": MarshalUncompressed of the decoded point", copyG1(d1).MarshalUncompressed(), append([]byte{4}, full...)); err != nil {
+		if err := hs.twice(desc+": MarshalUncompressed of the decoded point", d1.MarshalUncompressed, append([]byte{4}, full...)); err != nil {
 			return err
 		}
 		if !v.inf {
-			if err := eqBytes(desc+": MarshalCompressed of the decoded point", copyG1(d1).MarshalCompressed(), g1Compressed(v.p1)); err != nil {
+			if err := hs.twice(desc+": MarshalCompressed of the decoded point", d1.MarshalCompressed, g1Compressed(v.p1)); err != nil {
 				return err
 			}
 		}
@@ -565,14 +637,14 @@ func checkDecode(c decCase, r *h.Rec) error {
 		}
 	case 2:
 		full := g2Bytes(v.p2)
-		if err := eqBytes(desc+": Marshal of the decoded point", copyG2(d2).Marshal(), full); err != nil {
+		if err := hs.twice(desc+": Marshal of the decoded point", d2.Marshal, full); err != nil {
 			return err
 		}
-		if err := eqBytes(desc+": MarshalUncompressed of the decoded point", copyG2(d2).MarshalUncompressed(), append([]byte{4}, full...)); err != nil {
+		if err := hs.twice(desc+": MarshalUncompressed of the decoded point", d2.MarshalUncompressed, append([]byte{4}, full...)); err != nil {
 			return err
 		}
 		if !v.inf {
-			if err := eqBytes(desc+": MarshalCompressed of the decoded point", copyG2(d2).MarshalCompressed(), g2Compressed(v.p2)); err != nil {
+			if err := hs.twice(desc+": MarshalCompressed of the decoded point", d2.MarshalCompressed, g2Compressed(v.p2)); err != nil {
 				return err
 			}
 		}
@@ -597,7 +669,7 @@ func checkDecode(c decCase, r *h.Rec) error {
 			return err
 		}
 	default:
-		if err := eqBytes(desc+": Marshal of the decoded element", copyGT(dt).Marshal(), canon); err != nil {
+		if err := hs.twice(desc+": Marshal of the decoded element", dt.Marshal, canon); err != nil {
 			return err
 		}
 		g, _ := gtBase()
@@ -606,7 +678,80 @@ func checkDecode(c decCase, r *h.Rec) error {
 			return err
 		}
 	}
-	return nil
+	// slices returned by the encoders earlier must have survived all later calls
+	if err := hs.verify(); err != nil {
+		return fmt.Errorf("%s: %v", desc, err)
+	}
+	return follow()
+}
+
+// followUp continues the history of the element the case decoded into (whether
+// that decode succeeded or failed): a valid finite element, the infinity
+// encoding (GT: a failing decode), and another finite element in the other
+// form are decoded into the same object; each time it must hold exactly the
+// model element. Input slices are overwritten after every call.
+func followUp(c decCase, desc string, d1 *vh.G1, d2 *vh.G2, dt *vh.GT) error {
+	flav := int(c.Seed>>1%2) * 4
+	compFirst := c.Seed&1 == 1
+	switch c.G {
+	case 1:
+		return followGroup(&grp1, d1, vh.Gen1, desc, flav, compFirst)
+	case 2:
+		return followGroup(&grp2, d2, vh.Gen2, desc, flav, compFirst)
+	}
+	g2m := fp12Mul(gRef, gRef)
+	a := mkArg(fp12Wire(gRef), flav)
+	if _, err := dt.Unmarshal(a.b); err != nil {
+		return fmt.Errorf("%s: follow-up GT.Unmarshal of e(P1,P2) into the same element failed: %v", desc, err)
+	}
+	a.scribble()
+	if err := eqBytes(desc+": follow-up decode of e(P1,P2) into the same element", gtView(dt), fp12Wire(gRef)); err != nil {
+		return err
+	}
+	short := mkArg(fp12Wire(g2m)[:200], flav)
+	if _, err := dt.Unmarshal(short.b); err == nil {
+		return fmt.Errorf("%s: follow-up GT.Unmarshal accepted a 200-byte string", desc)
+	}
+	short.scribble()
+	b := mkArg(fp12Wire(g2m), flav)
+	if _, err := dt.Unmarshal(b.b); err != nil {
+		return fmt.Errorf("%s: follow-up GT.Unmarshal after a failed one failed: %v", desc, err)
+	}
+	b.scribble()
+	g, _ := gtBase()
+	dt.Add(dt, g)
+	return eqBytes(desc+": follow-up decode after a failed one, times e(P1,P2)", gtView(dt), fp12Wire(fp12Mul(g2m, gRef)))
+}
+
+func followGroup[L any, E any](g *grp[L, E], d L, libGen L, desc string, flav int, compFirst bool) error {
+	m7 := g.cv.mul(g.generator(), big.NewInt(7))
+	m9 := g.cv.mul(g.generator(), big.NewInt(9))
+	step := func(what string, comp bool, m apt[E]) error {
+		dec, e := g.unm, g.enc(m)
+		if comp {
+			dec, e = g.unmC, g.encC(m)
+		}
+		a := mkArg(e, flav)
+		if _, err := dec(d, a.b); err != nil {
+			return fmt.Errorf("%s: follow-up decode (%s) of the valid encoding %x into the same element failed: %v", desc, what, e, err)
+		}
+		if err := a.intact(desc + ": follow-up decode"); err != nil {
+			return err
+		}
+		a.scribble()
+		if err := eqBytes(desc+": follow-up decode ("+what+") into the same element", g.view(d), g.enc(m)); err != nil {
+			return err
+		}
+		sum := g.add(g.newL(), d, libGen)
+		return eqBytes(desc+": follow-up decode ("+what+") + Gen", g.view(sum), g.enc(g.cv.add(m, g.generator())))
+	}
+	if err := step("[7]Gen", compFirst, m7); err != nil {
+		return err
+	}
+	if err := step("infinity", false, apt[E]{Inf: true}); err != nil {
+		return err
+	}
+	return step("[9]Gen", !compFirst, m9)
 }
 
 // checkEncoders: Marshal / MarshalUncompressed / MarshalCompressed of the
@@ -615,7 +760,7 @@ func checkEncoders(c decCase, base []byte) error {
 	k := be32(modN(scalarInt(c.A)))
 	switch c.G {
 	case 1:
-		p, m, err := grp1.point(c.A, c.Reuse)
+		p, m, err := grp1.point(c.A, c.Reuse%2 == 1)
 		if err != nil {
 			return err
 		}
@@ -629,7 +774,7 @@ func checkEncoders(c decCase, base []byte) error {
 			}
 		}
 	case 2:
-		p, m, err := grp2.point(c.A, c.Reuse)
+		p, m, err := grp2.point(c.A, c.Reuse%2 == 1)
 		if err != nil {
 			return err
 		}
@@ -659,7 +804,7 @@ func TestC09_DecodeG1(t *testing.T) {
 }
 
 func TestC09_DecodeG2(t *testing.T) {
-	h.Prop(t, h.P{Name: "decode-g2", Quick: 600, Thorough: 8000, Journal: true}, genDec(2), checkDecode)
+	h.Prop(t, h.P{Name: "decode-g2", Quick: 500, Thorough: 8000, Journal: true}, genDec(2), checkDecode)
 }
 
 func TestC09_DecodeGT(t *testing.T) {
@@ -680,7 +825,18 @@ func TestC09_DecodeFixed(t *testing.T) {
 		g1 := g1Bytes(gen1)
 		g2 := g2Bytes(gen2)
 		gt := fp12Wire(gRef)
-		raw := func(g int, comp bool, s []byte) { emit(decCase{G: g, Comp: comp, Src: 2, Raw: s}) }
+		idx := 0
+		raw := func(g int, comp bool, s []byte) {
+			// every string into a fresh element and into one with a history
+			// (rotating through all histories, input flavours and scribbling)
+			emit(decCase{G: g, Comp: comp, Src: 2, Raw: s})
+			n := nRecv
+			if g == 12 {
+				n = len(gtRecvNames)
+			}
+			idx++
+			emit(decCase{G: g, Comp: comp, Src: 2, Raw: s, Reuse: 1 + idx%(n-1), Flav: idx % nFlavours, Scrib: idx%2 == 0, Seed: uint64(idx)})
+		}
 		// G1 uncompressed
 		for _, s := range [][]byte{
 			z(64), z(63), z(65), z(0), cat(z(32), one), cat(one, z(32)), cat(z(32), p), cat(p, z(32)), cat(p, p),
